@@ -2,6 +2,7 @@
 package file
 
 import (
+	"github.com/form3tech-oss/f1/v2/internal/trigger/api"
 	"time"
 
 	zz "github.com/form3tech-oss/f1/v2/internal/zzverif"
@@ -232,4 +233,60 @@ func VerifC14_RampStagePresence() {
 		want = 1
 	}
 	zz.Assert("C15.ramp.own_value_else_default", rs.Stages[0].Rate(zz.Time(1)) == want)
+}
+
+var c15Jitters []float64
+
+// stand-in for api.WithJitter: records the jitter a stage's rate function is built with
+func c15WithJitter(fn api.RateFunction, j float64) api.RateFunction {
+	c15Jitters = append(c15Jitters, j)
+	return fn
+}
+
+// VerifC15_JitterInheritance: a constant or ramp stage whose jitter is independently present (with an ARBITRARY value,
+// including an explicit 0) or omitted in the stage and in the default section: the rate function is built with the
+// stage's own value whenever the stage gives one - an explicit zero is a value, not an omission -, otherwise with the
+// default's, otherwise with 0.
+//
+//verif:replace gopkg.in/yaml.v3.Unmarshal c15Unmarshal
+//verif:replace $M/internal/trigger/api.WithJitter c15WithJitter
+//verif:noreplay yaml.Unmarshal and WithJitter are replaced by harness stand-ins
+//verif:unroll 12
+//verif:timeout 120
+func VerifC15_JitterInheritance() {
+	c15Jitters = nil
+	sj, dj := zz.Float64("stage.jitter"), zz.Float64("default.jitter")
+	zz.Assume(sj >= 0)
+	zz.Assume(sj < 100)
+	zz.Assume(dj >= 0)
+	zz.Assume(dj < 100)
+	st := Stage{Duration: c15Dur(10 * time.Second), Distribution: c15Str("none")}
+	if zz.Bool("ramp") {
+		st.Mode, st.StartRate, st.EndRate = c15Str("ramp"), c15Str("1/s"), c15Str("10/s")
+	} else {
+		st.Mode, st.Rate = c15Str("constant"), c15Str("5/s")
+	}
+	var def Stage
+	if zz.Bool("has.stage.jitter") {
+		st.Jitter = c15F(sj)
+	}
+	if zz.Bool("has.default.jitter") {
+		def.Jitter = c15F(dj)
+	}
+	c15Config = ConfigFile{Scenario: c15Str("scn"), Limits: c15Limits(), Default: def, Stages: []Stage{st}}
+	zz.Assume(*c15Config.Limits.Concurrency >= 1)
+	rs, err := ParseConfigFile(nil, zz.Time(1<<40))
+	zz.Cover("C15.jitter.returned")
+	zz.CoverIf("C15.jitter.explicit_zero_in_stage_nonzero_default", err == nil && zz.Bool("has.stage.jitter") && sj == 0 && zz.Bool("has.default.jitter") && dj > 0)
+	zz.Assert("C15.jitter.accepted", err == nil && rs != nil && len(rs.Stages) == 1)
+	if err != nil {
+		return
+	}
+	want := 0.0
+	if zz.Bool("has.stage.jitter") {
+		want = sj
+	} else if zz.Bool("has.default.jitter") {
+		want = dj
+	}
+	zz.Assert("C15.jitter.own_value_else_default_else_zero", len(c15Jitters) == 1 && c15Jitters[0] == want)
 }
